@@ -108,8 +108,8 @@ func (c *Component) newK1Signer() func(string, []byte) ([]byte, error) {
 }
 
 // newPeerK1Verifier returns a function that verifies a hash using the given peer IDs (public keys).
-func (c *Component) newPeerK1Verifier(hashFunc hashFunc) func(string, *anypb.Any, [][]byte) error {
-	return func(msgID string, anyPB *anypb.Any, sigs [][]byte) error {
+func (c *Component) newPeerK1Verifier(hashFunc hashFunc) func(peer.ID, string, *anypb.Any, [][]byte) error {
+	return func(sender peer.ID, msgID string, anyPB *anypb.Any, sigs [][]byte) error {
 		if len(sigs) != len(c.peers) {
 			return errors.New("invalid number of signatures")
 		}
@@ -121,6 +121,11 @@ func (c *Component) newPeerK1Verifier(hashFunc hashFunc) func(string, *anypb.Any
 		hash, err := hashFunc(msgID, anyPB)
 		if err != nil {
 			return errors.Wrap(err, "hash any")
+		}
+
+		hash, err = senderHash(sender, hash)
+		if err != nil {
+			return errors.Wrap(err, "sender hash")
 		}
 
 		for i, sig := range sigs {
